@@ -815,8 +815,11 @@ def run_generator_scenario(seed, wait_s=2.6):
                     rep["violations"].append(dict(what=f"a spawn of `{g['name']}` that cannot be honoured must yield exactly one "
                                                        f"{g['name']}.spawn.error naming it; got {[o['topic'] for o in obs]}"))
                 continue
+            if g["kind"] == "plain" and not g["id"]:
+                rep["violations"].append(dict(what=f"POST /{g['name']}.spawn was not accepted"))
+                continue
             if g["kind"] == "plain":
-                runs = [g["outs"]] * 6
+                runs = [g["outs"]] * (6 + len(obs))
                 line = f"GEN spawn={H.hex32(g['id'])} ctx={H.hex32(g['ctx'])} name={xh(g['name'])}" + "".join(
                     " RUN" + "".join(f" o={xh(o)}" for o in run) for run in runs)
                 exp = [dict(topic=e["topic"], ctx=e["ctx"], content=e["content"]) for e in model_service([line])[0]]
@@ -827,7 +830,7 @@ def run_generator_scenario(seed, wait_s=2.6):
                     kx = next((j for j, (a, b) in enumerate(zip(exp, obs)) if a != b), min(len(exp), len(obs)))
                     rep["violations"].append(dict(
                         what=f"generator `{g['name']}` ({g['outs']}): observed frames deviate from start, recv..., stop, start, ... at #{kx}: "
-                             f"impl {str(obs[kx])[:200] if kx < len(obs) else 'nothing'} vs model {str(exp[kx])[:200]}; observed topics {[o['topic'] for o in obs][:14]}"))
+                             f"impl {str(obs[kx])[:200] if kx < len(obs) else 'nothing'} vs model {str(exp[kx])[:200] if kx < len(exp) else 'nothing'}; observed topics {[o['topic'] for o in obs][:14]}"))
                 elif n_complete < 2:
                     rep["violations"].append(dict(
                         what=f"generator `{g['name']}` ({g['outs']}) was not started again after its stop within {wait_s}s: only "
